@@ -17,6 +17,16 @@ CLAIMED = {
    "Five scenario programs (open/complete/change/complete; workspace with included file; initialized + two configuration changes; two documents with semantic tokens; open/close/reopen), each a serial stream of 8-11 notifications and requests with 1-3 background goroutines, are executed under every schedule within preemption bound 1-2 (quick) / 2-3 (thorough). Per schedule: no panic, no deadlock, no race report, and every response is one a sequential execution can give in which each background computation is either finished or still pending but no superseded result is used; after a drain only the sequential response is accepted.",
    "The scheduler's hand-off is a spin on a plain word inside //go:norace functions (GOMAXPROCS=1), so it adds no happens-before edge; shims wrap the real sync primitives. Not covered: weak-memory effects outside Go's race model, goroutines inside jsonrpc2, schedules beyond the bound, scenarios other than the five.",
    "DESIGN.md §3.3, §5 C14"),
+ "C10": ("exploration",
+   "exhaustive enumeration of all include graphs on <= 4 files (every 4x4 adjacency matrix) against a reference graph walk",
+   "All 65 536 directed graphs on 4 labelled files and all 512 on 3 (self-loops, diamonds, cycles of length 1-4), each also with every single edge redirected to a missing file (graphs with <= 4 edges quick, <= 8 thorough), depth limits 1..5 and a size limit on each non-root file for all graphs on 3 files and 4-file graphs with <= 4 edges, relative / ./ / absolute / ~/ path forms on all 3-file graphs, 7 glob patterns in each of 5 files, and published diagnostics on include lines through the wire seam, are materialised on disk and resolved by the real Loader (Load and LoadFromContent); files, order and the multiset of (verdict kind, target, directive line) must equal a reference depth-first walk with ancestor stack and loaded set.",
+   "Reference walk is 40 lines of Go sharing no code with the loader. Not covered: graphs on >= 5 files, symlinks, non-UTF-8 paths, combinations of two limit kinds.",
+   "DESIGN.md §4.4, §5 C10"),
+ "C11": ("model_checking",
+   "explicit-state BFS over operation histories on one shared real Loader (fresh instance + replay + one operation), state key = disk variant vector + dump of the loader cache, differential oracle against a fresh Loader after every load",
+   "For every include graph on 3 files with <= 3 edges (all 512 in thorough) and the chain/diamond/cycle/star shapes on 4 files, with two content variants per file (variant 2 toggles one include edge), all histories of load(root_i) from disk, load from editor content, edit-file+InvalidateFile, ClearCache and limit changes are explored breadth-first to depth 5 (7 thorough) with state de-duplication; after every load the result (primary, files with their content identity, order, verdicts) must equal a fresh loader's on the current disk.",
+   "State key contains the cache contents read through an overlay accessor, so histories are merged only when the loader really is in the same state. Files changed on disk without invalidation are excluded by the property.",
+   "DESIGN.md §3.4, §5 C11"),
 }
 
 NOT_YET = "check not built yet in this session (work in progress; see DESIGN.md §5 for the plan)"
